@@ -614,9 +614,87 @@ pub fn judge_history(emu: &mut Emu, ops: &[Op], alt: Option<&[Op]>) -> Result<Su
     Ok(Summary { ticks: m.ticks, events: m.events, clock_changes, writes_midcount, long_8192 })
 }
 
+/// Tick conservation over very long runs: a single clock selection stays in force while the elapsed
+/// states pass every accumulator-width boundary up to 2^32 (the statement holds for all E). Observed
+/// densely around 2^16, 2^24, 2^31 and 2^32 and sparsely in between; the oracle is the same existential
+/// phase: some constant 0 <= p < divisor must explain every observed TCNT.
+pub fn long_run(emu: &mut Emu, cks: u8) -> Result<u64, String> {
+    prepare(emu);
+    let div = divisor(cks) as u64;
+    let w = |emu: &mut Emu, a: u32, v: u8| emu.cpu.bus.write(a, v).map_err(|e| e.to_string());
+    w(emu, TCORA, 0)?;
+    w(emu, TCORB, 0)?;
+    w(emu, TCNT, 0)?;
+    w(emu, TCR, cks)?;
+    let mut e_total: u64 = 0;
+    let (mut lo, mut hi) = (0u64, div - 1); // candidate phases
+    let end: u64 = (1u64 << 32) + (1 << 21);
+    let marks: [u64; 5] = [1 << 16, 1 << 24, 1 << 31, 1 << 32, end];
+    let mut calls: u64 = 0;
+    let mut observations = 0u64;
+    while e_total < end {
+        let cpu = &mut emu.cpu;
+        match guarded(|| hooks::update_modules(cpu, 255)) {
+            Ok(Ok(())) => {}
+            Ok(Err(e)) => return Err(format!("update_modules failed after {} states: {}", e_total, e)),
+            Err(p) => return Err(format!("update_modules panicked after {} states: {}", e_total, p)),
+        }
+        e_total += 255;
+        calls += 1;
+        let near = marks.iter().any(|m| e_total + 8 * 8192 >= *m && e_total <= *m + 8 * 8192);
+        if near || calls % 65536 == 0 {
+            observations += 1;
+            let tcnt = emu.cpu.bus.read(TCNT).map_err(|e| e.to_string())? as u64;
+            // ticks = floor((E + p) / div) is k0 for p < div - E mod div, else k0 + 1
+            let k0 = e_total / div;
+            let split = div - e_total % div; // first p that yields k0 + 1 (== div: none)
+            let (mut nlo, mut nhi) = (u64::MAX, 0u64);
+            if k0 % 256 == tcnt && lo < split {
+                nlo = lo;
+                nhi = hi.min(split - 1);
+            }
+            if (k0 + 1) % 256 == tcnt && hi >= split {
+                nlo = nlo.min(lo.max(split));
+                nhi = nhi.max(hi);
+            }
+            if nlo > nhi {
+                cleanup(emu);
+                return Err(format!(
+                    "clock /{}: after {} states TCNT = {:02x}; floor(E/{}) mod 256 = {:02x}: no constant phase in [{}, {}] explains it (a tick was lost or gained)",
+                    div, e_total, tcnt, div, k0 % 256, lo, hi
+                ));
+            }
+            lo = nlo;
+            hi = nhi;
+            let _ = drain_irqs(emu);
+        }
+    }
+    cleanup(emu);
+    Ok(observations)
+}
+
 pub fn run(ctx: &Ctx) -> i32 {
     if let Some(v) = &ctx.replay {
+        if let Some(code) = replay_fuzz(P, v) {
+            return code;
+        }
         let case = v.get("case").unwrap_or(v);
+        if case.get("kind").and_then(|k| k.as_str()) == Some("timer-long-run") {
+            let mut emu = Emu::new(&ctx.base);
+            return match long_run(&mut emu, case.get("cks").and_then(|c| c.as_u64()).unwrap_or(3) as u8) {
+                Ok(_) => {
+                    println!("replay {}: long run passes", P);
+                    0
+                }
+                Err(m) => {
+                    let f = Failure { signature: "timer long run".into(), detail: m, case: case.clone() };
+                    let p = write_replay(P, &f);
+                    println!("VIOLATION property={} replay={}", P, p.display());
+                    println!("  detail: {}", f.detail);
+                    1
+                }
+            };
+        }
         let Some(ops) = ops_from_json(case) else { return 2 };
         let alt = case.get("alt").and_then(ops_from_json);
         let mut emu = Emu::new(&ctx.base);
@@ -637,7 +715,7 @@ pub fn run(ctx: &Ctx) -> i32 {
     let tier = ctx.tier;
     let nh: u32 = tier.pick(300_000, 8_000_000);
     let nshards = 64usize;
-    let stats = par_shards(ctx, nshards, |shard| {
+    let mut stats = par_shards(ctx, nshards, |shard| {
         let w = Worker::new(ctx);
         let ent = entropy_n(1400);
         let _ = run_prop(mix(ctx.seed, 0x1701_0000 + shard as u64), nh / nshards as u32, &ent, |raw, shrinking| {
@@ -686,6 +764,26 @@ pub fn run(ctx: &Ctx) -> i32 {
         w.emu.borrow_mut().soft_reset();
         w.stats.into_inner()
     });
+    if tier == Tier::Thorough {
+        fuzz_campaign(ctx, "fuzz_timer", 8, 400_000, 800, &mut stats);
+    }
+    // long runs across the accumulator-width boundaries (quick: /8192 and /64; thorough: also /8)
+    let divs: Vec<u8> = if tier == Tier::Thorough { vec![3, 2, 1] } else { vec![3, 2] };
+    let lstats = par_shards(ctx, divs.len(), |i| {
+        let mut emu = Emu::new(&ctx.base);
+        let mut st = Stats::new();
+        match long_run(&mut emu, divs[i]) {
+            Ok(obs) => {
+                st.evaluations += 1;
+                st.class_n("long run to 2^32 + 2^21 states: observations", obs);
+                st.nontrivial(key_hash(&("long", divs[i])), || json!({"long_run_clock_select": divs[i], "states": (1u64 << 32) + (1 << 21), "observations": obs}));
+            }
+            Err(m) => st.fail(Failure { signature: "timer long run | tick lost or gained".into(), detail: m, case: json!({"kind": "timer-long-run", "cks": divs[i]}) }),
+        }
+        emu.soft_reset();
+        st
+    });
+    stats.merge(lstats);
     let rule = "cases = proptest-generated histories (up to 300 ops) over {n states elapse (1-255, through the run loop's update_modules), write TCR (all upper bits, clock /8, /64, /8192 or none), write TCNT, TCORA, TCORB, clear flags in TCSR}, the stated precondition constructed (TCORA != TCORB, both non-zero while a compare-match clear source is selected), each history also re-run with the same elapsed time between writes split differently (all 1-state chunks / all 255-state chunks / random). Oracle = tick-by-tick reference with an existential phase: after a clock selection the phase is any constant 0 <= p < divisor; every step splits the candidate phases by predicted tick count and keeps those that reproduce TCNT, TCSR and the multiset of interrupt requests (drained through the real poll); no candidate left = violation; both partitions must agree at every write and be explainable by a common phase. Non-trivial = history with a flag/interrupt event and >= 2 clock changes or a register write while counting; distinct by the op sequence.";
     let mut extra = Map::new();
     extra.insert("masked_details".into(), json!(["clock selections 4-7 (external clock / cascade) are not generated", "whether the counter is cleared on the matching tick or on the following one (both readings accepted, constant per history)", "TCORA == TCORB or 0 while a compare-match clear source is selected (excluded by the property)"]));
